@@ -369,7 +369,7 @@ func isCanonicalNaN(v ssa.Value) bool {
 func runR27(c *Ctx) {
 	p := c.P
 	root := p.Func("", "QFrame.ToJSON")
-	esc := p.Func("internal/strings", "AppendQuotedString")
+	esc := p.anchorEscaper()
 	if root == nil || esc == nil {
 		c.undecided("anchor|ToJSON/AppendQuotedString", "-", "entry point or escaper not found")
 		return
